@@ -10,14 +10,14 @@ let c14_tok = function
   | "ok" -> SOk | "refuse" -> SRefuse | "blackhole" -> SBlackhole
   | "efin" -> SEarlyFin | "erst" -> SEarlyRst
   | "silent" -> SSilent | "half" -> SHalf | "garbage" -> SGarbage | "fin" -> SFin | "rst" -> SRst
-  | "ifin" -> SIdleFin | "irst" -> SIdleRst | "igarb" -> SIdleGarbage | "idown" -> SIdleDown
+  | "ifin" -> SIdleFin | "irst" -> SIdleRst | "igarb" -> SIdleGarbage | "idown" -> SIdleDown | "werr" -> SWriteErr
   | s -> failwith ("unknown fault token " ^ s)
 
 let c14_toks s =
   if s = "-" || s = "" then [] else List.map c14_tok (String.split_on_char ',' s)
 
 let c14_tr = function
-  | "udp" -> (TPipe, true) | "tcpp" | "tlsp" -> (TPipe, false)
+  | "udp" -> (TPipe, true) | "tcpp" | "tlsp" | "pfake" -> (TPipe, false)
   | "tcp" | "tls" -> (TReuse, false)
   | "doh" -> (TDoH, false) | "doq" -> (TQuic, false)
   | s -> failwith ("unknown transport " ^ s)
